@@ -66,15 +66,15 @@ theorem log_ids_commit_order_async_counterexample :
 /-- With HASH_LOGS=SYNC the same attempt makes B wait at the advisory lock: log ids follow commit order
     (a test of the SYNC protocol on this schedule; the general statement is `log_ids_commit_order_sync`). -/
 example :
-    (run (cxLogSchedule ++ [2, 2, 2, 2, 1, 2, 2, 2]) { cxWorld true with }).logCommits.map (·.2.1) = [1, 2] := by
+    (run ([1, 1, 1, 1, 1, 1] ++ [2, 2, 2, 2, 2] ++ [1] ++ [2, 2, 2]) (cxWorld true)).logCommits.map (·.2.1) = [1, 2] := by
   decide
 
 /-- tie (regenerated): `InsertTransaction` (where `nextval(transaction_id)` is evaluated) precedes the
     advisory lock, which precedes the log INSERT (where `nextval(log_id)` is evaluated), in the real
     SYNC create path; the ASYNC path has no advisory lock at all -/
 theorem id_allocation_order_follows_generated_handles :
-    modelledKinds Generated.Handles.sendSyncUnbounded = [.begin, .updateVolumes, .insertTx, .advLockLog, .insertLog, .commit] ∧
-    modelledKinds Generated.Handles.sendAsyncBounded = [.begin, .getBalances, .updateVolumes, .insertTx, .insertLog, .commit] := by
+    modelledKinds Generated.Handles.sendSyncUnbounded = [.begin, .updateVolumes, .insertTx, .upsertAccounts, .advLockLog, .insertLog, .commit] ∧
+    modelledKinds Generated.Handles.sendAsyncBounded = [.begin, .getBalances, .updateVolumes, .insertTx, .upsertAccounts, .insertLog, .commit] := by
   decide
 
 end Ledger.C16s
